@@ -4,7 +4,8 @@ from common import *
 import runner
 from props.parts import cratesv2 as cv
 
-LEAN_MODULES = ["Properties.C11V2"]
+LEAN_MODULES = ["Properties.C11V2", "Properties.C09Schema"]
+TRANSLATORS = {"v2ddl": cv.translate_ddl}
 THEOREMS = ["EngineModel.Properties.C11V2." + t for t in [
     "C11V2_step_preserves",
     "C11V2_inv_wfRaw",
@@ -12,7 +13,7 @@ THEOREMS = ["EngineModel.Properties.C11V2." + t for t in [
     "C11V2_reachable_structure",
     "C11V2_reachable_wfChains_partial",
     "C11V2_chains_counterexample",
-]]
+]] + ["EngineModel.Properties.C09.C09_crate_ddl_same_in_all_2x_schemas"]
 ASSUMPTIONS = [
     "2.x: C11's per-track derived columns (filename / fileType / origin ids) are outside this part (track work-package); this "
     "part covers the Playlist / PlaylistEntity chains, parent and membership references and the AUTOINCREMENT counters",
